@@ -579,3 +579,33 @@ Proof.
   exists bert_init, bert_old, bert_old. split; [repeat constructor; cbn; tauto|]. split; [repeat constructor|].
   vm_compute. intros H. discriminate H.
 Qed.
+
+(* ---- clone() swallows the RuntimeError of load_state_dict: when the rebuilt module does not have the
+        signature of the original (init_dict out of step with the network — defect R2/R20 class) the clone
+        silently keeps freshly initialised values; and conversely no load error + same keys => faithful ----- *)
+Definition sw_self : named nat := [("l.weight"%string, {| p_size := [2]; p_data := Dim [Sc 7; Sc 8] |})].
+Definition sw_fresh : named nat := [("l.weight"%string, {| p_size := [3]; p_data := Dim [Sc 0; Sc 0; Sc 0] |})].
+Lemma clone_swallow_refuted_lemma :
+  exists self fresh : named nat, NoDup (map fst self) /\ load_error self fresh = true /\
+    clone self fresh = fresh /\ clone self fresh <> self /\ reinit_from_mutated self fresh = None.
+Proof.
+  exists sw_self, sw_fresh. split; [repeat constructor; cbn; tauto|]. vm_compute.
+  repeat split; try reflexivity. intros H; discriminate H.
+Qed.
+
+Section LoadOk.
+Context {A : Type}.
+(* every entry of the destination that was loaded without complaint carries the source's value *)
+Theorem load_no_error_faithful_lemma : forall (src dst : named A) k p,
+  load_error src dst = false -> lookup k dst = Some p ->
+  exists sp, lookup k src = Some sp /\ p_size sp = p_size p /\ lookup k (load_params src dst) = Some sp.
+Proof.
+  intros src dst k p He Hk. unfold load_error in He. apply negb_false_iff in He.
+  apply andb_true_iff in He as [H1 _]. rewrite forallb_forall in H1.
+  pose proof (lookup_In k dst p Hk) as Hin. specialize (H1 (k, p) Hin). cbn [fst snd] in H1.
+  destruct (lookup k src) as [sp|] eqn:Hs; [|discriminate]. exists sp. split; [reflexivity|].
+  split; [apply size_eqb_eq; exact H1|].
+  unfold load_params. rewrite (lookup_map (load_one src) dst k (load_one_key src)), Hk.
+  unfold load_one. rewrite Hs, H1. reflexivity.
+Qed.
+End LoadOk.
